@@ -589,27 +589,31 @@ def _int_bounds(chk: Check) -> None:
     ok = False
     why = ""
     try:
-        if isinstance(par, ast.If) and r in par.orelse:
-            # raised in the else of an if/elif chain: valid iff the innermost elif test holds
-            tests = [par.test]
-            keep_when = True
-        elif isinstance(par, ast.If) and r in par.body:
-            tests = [par.test]
-            keep_when = False
-        else:
-            raise Outside("IndexError is not raised under a simple test")
-        for t in tests:
+        # what is known to hold where the index is first used as an integer (guards in any
+        # spelling: elif chain, guard clause with raise, nested ifs)
+        from ..cfg import CFG as _CFG
+        flow = _CFG(f.node)
+        uses = [st for st in walk_no_nested(f.node)
+                if isinstance(st, (ast.Assign, ast.AugAssign, ast.AnnAssign, ast.Expr))
+                and any(isinstance(c, ast.Call) and isinstance(c.func, ast.Attribute) and c.func.attr == "__index__"
+                        and attr_path(c.func.value) == (idx,) for c in ast.walk(st))]
+        if not uses:
+            raise Outside("the index is never used as an integer")
+        guards = []
+        for t, v in flow.facts_at(flow.node_of(uses[0])):
             if isinstance(t, ast.Call) and attr_path(t.func) == ("isinstance",):
-                raise Outside("guard is the slice test")
-            parts = t.values if isinstance(t, ast.BoolOp) and isinstance(t.op, ast.And) else [t]
-            if not keep_when and len(parts) > 1:
-                raise Outside("negated conjunction")
-            if not keep_when and isinstance(t, ast.BoolOp) and isinstance(t.op, ast.Or):
-                parts = t.values
+                continue
+            guards.append((t, v))
+        if not guards:
+            raise Outside("the integer index is used unguarded although an IndexError is raised by hand")
+        for t, keep_when in guards:
+            parts = [t]
             for p_ in parts:
                 if not isinstance(p_, ast.Compare):
                     raise Outside("not a comparison: %s" % unparse(p_))
                 terms = [p_.left] + list(p_.comparators)
+                if not keep_when and len(p_.ops) > 1:
+                    raise Outside("the integer path runs where the chain %s is false" % unparse(p_))
                 for a, op, b in zip(terms, p_.ops, terms[1:]):
                     on = type(op).__name__
                     if on not in NEG:
